@@ -112,10 +112,12 @@ def gen_random(rng, n, weighted):
     ops = []; m = {}
     nk = rng.randint(2, 7)
     heavy = rng.random() < 0.5
+    tiny = rng.random() < 0.15
     for _ in range(n):
         k = rng.randrange(nk)
         r = rng.random()
         w = F(rng.choice([0, 1, 1, 2, 3, 5, 8]), rng.choice([1, 2, 4])) if not heavy else F(rng.choice([0, 1, 7, 7, 7, 9]), rng.choice([1, 1, 2]))
+        if tiny: w = w / 2 ** 40          # arbitrary positive weights: also very small ones (all of them, so that sums stay tiny)
         if not weighted:
             op = ('A', k) if r < 0.6 or k not in m else ('R', k)
         elif r < 0.3: op = ('I', k, w)
